@@ -15,6 +15,7 @@ mod enc;
 mod attrs;
 mod tb;
 mod tok;
+mod edits;
 
 // live heap bytes (C10 growth probe): a counting wrapper around the system allocator
 struct Counting;
@@ -483,7 +484,8 @@ fn main() {
         KNOWN_NS_STACK.with(|k| *k.borrow_mut() = ns_stack);
     }
     if prop == "C07" || prop == "C16" {
-        let r = attrs::run_attrs(max_len, max_cuts);
+        let mut r = attrs::run_attrs(max_len, max_cuts);
+        if prop == "C07" { let e = edits::run_edits(3); r.cases += e.cases; r.violations.extend(e.violations); }
         println!("{{\"property\":{:?},\"cases\":{},\"alphabet\":\"attribute pieces a=1 A=2 b b=3 c='x y' a=\\\"4\\\"; ops set(a) set(B) set(d) remove(a) remove(B) remove(z)\",\"exhaustive_len\":{},\"seed_documents\":0,\"max_cuts\":{},\"attr_mode\":true,\"violations\":[{}]}}",
             prop, r.cases, max_len, max_cuts, r.violations.join(","));
         std::process::exit(if r.violations.is_empty() { 0 } else { 1 });
